@@ -98,7 +98,16 @@ type obs struct {
 }
 
 func scenario(cfg hlib.ChanCfg, eps []int, sizes []int, scribbler bool, bound int) *explore.Scenario {
+	return scenarioWrap(cfg, hlib.Wrap{}, eps, sizes, scribbler, bound)
+}
+
+// scenarioWrap: with a non-zero wrap the channel talks to one of the library's own buffering transport
+// wrappers and the mock plays the raw connection underneath.
+func scenarioWrap(cfg hlib.ChanCfg, wrap hlib.Wrap, eps []int, sizes []int, scribbler bool, bound int) *explore.Scenario {
 	name := fmt.Sprintf("%s/", cfg)
+	if wrap != (hlib.Wrap{}) {
+		name = fmt.Sprintf("%s+%s/", cfg, wrap)
+	}
 	for i, e := range eps {
 		if i > 0 {
 			name += ","
@@ -116,7 +125,7 @@ func scenario(cfg hlib.ChanCfg, eps []int, sizes []int, scribbler bool, bound in
 		Init:  func() any { return &obs{eps: eps} },
 		Body: func(v any) {
 			o := v.(*obs)
-			o.env = hlib.NewEnv(cfg, nil)
+			o.env = hlib.NewEnvWrap(cfg, wrap, nil)
 			max := 0
 			for i := range eps {
 				o.calls = append(o.calls, hlib.NewCall(i+1, hlib.Write1, sizes[i]))
@@ -240,6 +249,15 @@ func build(tier string) []*explore.Scenario {
 				}
 				scs = append(scs, sc)
 			}
+		}
+	}
+	// over the library's buffering wrappers (write buffer smaller than / larger than the payloads)
+	for _, cfg := range []hlib.ChanCfg{{2, true}, {0, false}} {
+		for _, wrap := range []hlib.Wrap{{0, 16}, {16, 4096}} {
+			scs = append(scs,
+				scenarioWrap(cfg, wrap, []int{eWrite1, eWritev2, eWrite1}, []int{8, 1500, 8}, false, bound),
+				scenarioWrap(cfg, wrap, []int{eWritev3, eCtxWrite1, eReadFrom}, []int{1024, 8, 1500}, true, bound-1),
+			)
 		}
 	}
 	// Rejected writes on a full non-blocking queue (single-chunk payloads only: nothing is ever partially
